@@ -295,8 +295,8 @@ pub fn seg_hot_cases(prop: &'static str, w: [u32; 7], len: RangeInclusive<usize>
             let table = vec![
                 spec(w[0] * 4, S_INS, &[hot.clone(), 0..=1, hot.clone(), 0..=1, 0..=4]),
                 spec(w[0], S_INS, &[0..=31, 0..=3, 0..=31, 0..=3, 0..=4]),
-                spec(w[1] * 2, S_QUERY, &[hot.clone(), 0..=1, hot.clone(), 0..=1, 0..=5]),
-                spec(w[1], S_QUERY, &[0..=31, 0..=3, 0..=31, 0..=3, 0..=5]),
+                spec(w[1] * 2, S_QUERY, &[hot.clone(), 0..=1, hot.clone(), 0..=1, 0..=35]),
+                spec(w[1], S_QUERY, &[0..=31, 0..=3, 0..=31, 0..=3, 0..=35]),
                 spec(w[2], S_ADV, &[0..=2]),
                 spec(w[3], S_CLEAR, &[0..=2]),
                 spec(w[4], S_QUERYALL, &[]),
@@ -320,7 +320,7 @@ pub fn seg_table(w: &[u32; 7]) -> Vec<OpSpec> {
     vec![
         spec(w[0], S_INS, &[0..=31, 0..=11, 0..=31, 0..=11, 0..=4]),
         spec((w[0] / 10).max(if w[0] > 0 { 1 } else { 0 }), S_INS, &[0..=31, 0..=11, 0..=31, 0..=11, 9..=9]),
-        spec(w[1], S_QUERY, &[0..=31, 0..=11, 0..=31, 0..=11, 0..=5]),
+        spec(w[1], S_QUERY, &[0..=31, 0..=11, 0..=31, 0..=11, 0..=35]),
         spec(w[2], S_ADV, &[0..=2]),
         spec(w[3], S_CLEAR, &[0..=2]),
         spec(w[4], S_QUERYALL, &[]),
